@@ -7,9 +7,63 @@ package asp
 // the real parse step, and serialises what they produce with the serialiser of verif_c16.go.
 
 import (
+	"fmt"
+	"os"
+	"path/filepath"
+	"sort"
+
 	"github.com/thought-machine/please/rules"
 	"github.com/thought-machine/please/src/core"
 )
+
+// VerifC17MutableExports loads the build_defs text `src` through the real interpreter.Subinclude (parse, optimise,
+// interpret in a scope of its own, scope.Freeze, cache) and returns, sorted, every top-level name of the globals it
+// hands to the subincluding package whose value is still a MUTABLE container (a pyList or a pyDict rather than the
+// frozen wrapper), together with all names it exports. Follow-up of C17: a direct probe of scope.Freeze's coverage.
+func VerifC17MutableExports(src string) (mutable, all []string, err error) {
+	state := core.NewDefaultBuildState()
+	p := NewParser(state)
+	bsrc, err := rules.ReadAsset("builtins.build_defs")
+	if err != nil {
+		return nil, nil, err
+	}
+	if err := p.LoadBuiltins("builtins.build_defs", bsrc); err != nil {
+		return nil, nil, err
+	}
+	dir, err := os.MkdirTemp("", "c17-hook-")
+	if err != nil {
+		return nil, nil, err
+	}
+	defer os.RemoveAll(dir)
+	path := filepath.Join(dir, "d.build_defs")
+	if err := os.WriteFile(path, []byte(src), 0o644); err != nil {
+		return nil, nil, err
+	}
+	sub := p.interpreter.scope.Lookup("subinclude").(*pyFunc)
+	sub.nativeCode = func(s *scope, args []pyObject) pyObject {
+		// the same call the real subinclude() builtin makes per output file
+		globals := s.interpreter.Subinclude(s, path, core.BuildLabel{PackageName: "defs", Name: "d"}, false)
+		for k, v := range globals {
+			all = append(all, k)
+			switch v.(type) {
+			case pyList, pyDict:
+				mutable = append(mutable, k)
+			}
+		}
+		s.SetAll(globals, false)
+		return None
+	}
+	stmts, err := p.ParseData([]byte("subinclude(\"//defs:d\")\n"), "p/BUILD")
+	if err != nil {
+		return nil, nil, fmt.Errorf("parse: %s", verifShort(err))
+	}
+	if _, err := p.interpreter.interpretAll(core.NewPackage("p"), nil, nil, 0, stmts); err != nil {
+		return nil, nil, fmt.Errorf("%s", verifShort(err))
+	}
+	sort.Strings(mutable)
+	sort.Strings(all)
+	return mutable, all, nil
+}
 
 // VerifC17EvalPreloaded interprets the BUILD files `builds` in order (or concurrently) on ONE fresh parser after
 // loading, through Parser.LoadBuiltins, first builtins.build_defs and then each file of `preload` - exactly what
